@@ -1323,7 +1323,9 @@ class DesignSpace:
         if minus_lb:
             out[..., norm_inds] += lower_bounds[norm_inds]
 
-        if not self.__no_integer:
+        # Without the lower bounds, the vector is a direction (e.g. a gradient),
+        # not a point of the design space: its components are not rounded.
+        if not self.__no_integer and minus_lb:
             self.round_vect(out, copy=False)
             if recast_to_int:
                 out = out.astype(self.__INT_DTYPE)
